@@ -762,20 +762,25 @@ class Interp:
                 yield mkstr([c])
             return
         if isinstance(v, SBytes):
+            if not hasattr(ctx, 'byte_terms'):
+                ctx.byte_terms = set()
             if isinstance(v.ln, int):
                 for k in range(v.ln):
                     b = simp(v.at(k))
                     if is_z3(b):
                         ctx.assume(z3.And(b >= 0, b <= 255))
+                        ctx.byte_terms.add(b.get_id())
                     yield b
                 return
             k = 0
             while True:
                 if not ctx.decide(I(k) < zint(v.ln)):
                     return
-                b = v.at(k)
+                b = simp(v.at(k))
                 ctx.assume(z3.And(b >= 0, b <= 255))
-                yield simp(b)
+                if is_z3(b):
+                    ctx.byte_terms.add(b.get_id())
+                yield b
                 k += 1
             return
         if isinstance(v, Choice):
@@ -1118,13 +1123,69 @@ class Interp:
         b = self.eval(node.right, fr)
         return ops.binop(self.ctx, type(node.op).__name__, a, b)
 
+    PURE_CALLS = {'chr', 'ord', 'len', 'int', 'str', 'hex', 'min', 'max', 'abs'}
+
+    def is_pure_expr(self, node):
+        for n in ast.walk(node):
+            if isinstance(n, ast.Call):
+                if not (isinstance(n.func, ast.Name) and n.func.id in self.PURE_CALLS):
+                    return False
+            elif isinstance(n, (ast.Lambda, ast.ListComp, ast.GeneratorExp, ast.DictComp, ast.SetComp, ast.Await,
+                                ast.Yield, ast.YieldFrom, ast.NamedExpr)):
+                return False
+        return True
+
     def ex_IfExp(self, node, fr):
-        if truthy(self.ctx, self.eval(node.test, fr)):
+        t = self.eval(node.test, fr)
+        if is_z3(t) and self.is_pure_expr(node.body) and self.is_pure_expr(node.orelse):
+            # path merging for small pure conditional expressions: c ? a : b as an ite term
+            c = simp(t if is_symbool(t) else (t != 0))
+            if is_z3(c):
+                try:
+                    a = self.eval(node.body, fr)
+                    b = self.eval(node.orelse, fr)
+                except Raised:
+                    a = b = None
+                m = self.merge_values(c, a, b)
+                if m is not None:
+                    return m
+                return a if self.ctx.decide(c) else b
+        if truthy(self.ctx, t):
             return self.eval(node.body, fr)
         return self.eval(node.orelse, fr)
 
+    def merge_values(self, c, a, b):
+        if a is None or b is None:
+            return None
+        if (is_intlike(a) and not isinstance(a, bool)) and (is_intlike(b) and not isinstance(b, bool)):
+            return simp(z3.If(c, zint(a), zint(b)))
+        if (isinstance(a, bool) or is_symbool(a)) and (isinstance(b, bool) or is_symbool(b)):
+            from .values import zbool
+            return simp(z3.If(c, zbool(a), zbool(b)))
+        if is_str(a) and is_str(b):
+            sa, sb = segs_of(a), segs_of(b)
+            if len(sa) == len(sb) and all(isinstance(x, int) or is_symint(x) for x in sa + sb):
+                return mkstr([x if (isinstance(x, int) and isinstance(y, int) and x == y) else simp(z3.If(c, zint(x), zint(y)))
+                              for x, y in zip(sa, sb)])
+        return None
+
     def ex_Compare(self, node, fr):
         left = self.eval(node.left, fr)
+        if len(node.ops) > 1 and all(isinstance(c, (ast.Name, ast.Constant)) for c in node.comparators):
+            # chained comparison over simple operands: conjunction, no branching needed
+            conj = []
+            for op, comp in zip(node.ops, node.comparators):
+                right = self.eval(comp, fr)
+                r = ops.compare(self.ctx, type(op).__name__, left, right)
+                if r is False:
+                    return False
+                if r is not True:
+                    conj.append(r)
+                left = right
+            if not conj:
+                return True
+            from .values import zbool
+            return simp(z3.And(*[zbool(c) for c in conj])) if len(conj) > 1 else conj[0]
         result = True
         for op, comp in zip(node.ops, node.comparators):
             right = self.eval(comp, fr)
